@@ -49,7 +49,8 @@ type c15Run struct {
 	Append  bool `json:"append"`
 	Rows    int  `json:"rows"` // 0,1,2: which result set
 	Interim int  `json:"interim_reports"`
-	CrashAt int  `json:"killed_before_fs_operation"` // 0 = run completes
+	CrashAt int  `json:"killed_before_fs_operation"`            // 0 = run completes
+	FailAt  int  `json:"write_error_at_fs_operation,omitempty"` // that write stores half of its data and fails (disk full)
 }
 
 const c15Large = 600
@@ -148,6 +149,7 @@ func c15Exec(path string, r c15Run) (ops int, killed bool, oplog []string, err e
 	}
 	st := vos.Reset()
 	st.CrashAt = r.CrashAt
+	st.FailAt = r.FailAt
 	func() {
 		defer func() {
 			if x := recover(); x != nil {
@@ -233,6 +235,38 @@ func c15Check(c *Ctx, maxRuns int) {
 				if err != nil {
 					c.Violation("write-result-error", fmt.Sprintf("history %+v then %+v: %v", n.history, v, err), append(n.history, v))
 					continue
+				}
+				// a write error (disk full, quota) at every file-system operation of the run: the program sees the error
+				// and gives up; what it leaves behind must satisfy the same invariant as after a kill
+				for k := 1; k <= total; k++ {
+					item++
+					if item%c.NShards != c.Shard {
+						continue
+					}
+					run := v
+					run.FailAt = k
+					restore(n.st)
+					_, _, oplog, err := c15Exec(path, run)
+					if err == nil {
+						continue // operation k is not a write
+					}
+					transitions++
+					after := files()
+					hist := append(append([]c15Run{}, n.history...), run)
+					c.Count(fmt.Sprintf("%v", hist))
+					legit := map[string]bool{}
+					for s := range n.legit {
+						legit[s] = true
+					}
+					queries := map[string]bool{}
+					for s := range n.queries {
+						queries[s] = true
+					}
+					queries[c15Query(path, run)] = true
+					if d := c15Oracle(n.st, after, run, true, legit, queries, path); d != "" {
+						c.Violation("write-error-"+c15Sig(d), fmt.Sprintf("history %s (the write at fs-op %d stores half of its data and fails with 'no space left on device'; WriteResult returned %v): %s\n  file-system operations of the last run: %v\n  outfile before %q, after %q",
+							c15Hist(hist), k, err, d, oplog, show(n.st.Out), show(after.Out)), hist)
+					}
 				}
 				for k := 0; k <= total; k++ { // k = 0: completes; k >= 1: killed before operation k
 					item++
@@ -322,6 +356,9 @@ func c15Hist(h []c15Run) string {
 		s := fmt.Sprintf("[%s rows=%d interim=%d", m, r.Rows, r.Interim)
 		if r.CrashAt > 0 {
 			s += fmt.Sprintf(" KILLED before fs-op %d", r.CrashAt)
+		}
+		if r.FailAt > 0 {
+			s += fmt.Sprintf(" WRITE ERROR at fs-op %d", r.FailAt)
 		}
 		parts = append(parts, s+"]")
 	}
@@ -525,7 +562,7 @@ func init() {
 		ID:    "C15",
 		Level: "fault_enumeration",
 		Rule: "explicit-state search over file-system states (content of outfile, outfile.tmp, .query, .query.tmp): from {nothing, a complete outfile of an earlier query} every run variant (replace/append x 4 result sets (empty, 1 row, 2 rows, and - as the first run of a history - 600 rows = larger than any 4 KiB buffer) x 0/1 interim report + final report, " +
-			"the call pattern of MaprClient.reportResults in cumulative mode) is executed on the real GlobalGroupSet.WriteResult over a recording file system, once to completion and once killed before EVERY mutating file-system operation " +
+			"the call pattern of MaprClient.reportResults in cumulative mode) is executed on the real GlobalGroupSet.WriteResult over a recording file system, once to completion, once killed before EVERY mutating file-system operation and once with a write error (half of the data stored, then 'no space left on device') at every write " +
 			"(the file system is frozen, deferred clean-up has no effect); resulting states are de-duplicated and expanded to histories of 2 (quick) / 3 (thorough) runs; the invariant is evaluated on every state; plus: an interim and a final report of one client requested at the same moment (replace and append mode), all schedules within 2 (quick) / 3 (thorough) deviations with file-system operations as scheduling points, invariant: the outfile is never observable half-written and ends complete; non-trivial = a history containing a kill",
 		Assumptions: []string{
 			"one WriteString/Rename/OpenFile = one system call; a kill inside a single write(2) and power-loss reordering are not modelled",
